@@ -380,25 +380,26 @@ theorem global_cross (P : Plat) (src dst : Np) (links : List Lk) (lat : Int) (ca
                 congr 2; simp only [routeLat]; omega
 
 /-- Main lemma: the iterative code with its in/out accumulators = the recursive specification, for every fuel,
-every accumulated prefix `links`/`lat`.  The side condition on `links` is what the front insertion of Dijkstra
-zones needs (see `Props`). -/
-theorem globalRoute_spec (P : Plat) (hn : ∀ np, (allEnglobing P np).Nodup) (H : BypassOk P) :
+every accumulated prefix `links`/`lat`, for both variants of the same-zone case.  With `fx = true` (the code as it
+is now) there is no side condition; the pre-fix variant needs `BypassOk` and the side condition on `links`
+(what the front insertion of Dijkstra zones needs, see `Props`). -/
+theorem globalRouteV_spec (fx : Bool) (P : Plat) (hn : ∀ np, (allEnglobing P np).Nodup) (H : fx = true ∨ BypassOk P) :
     ∀ (f : Nat) (src dst : Np) (links : List Lk) (lat : Int),
-      (links = [] ∨ P.prepend (P.zoneOf src) = false) →
-      globalRoute P f src dst links lat = lift P lat (links ++ ·) (specRoute P f src dst) := by
+      (fx = true ∨ links = [] ∨ P.prepend (P.zoneOf src) = false) →
+      globalRouteV fx P f src dst links lat = lift P lat (links ++ ·) (specRoute P f src dst) := by
   intro f
   induction f with
-  | zero => intro src dst links lat _; simp [globalRoute, specRoute, lift]
+  | zero => intro src dst links lat _; simp [globalRouteV, specRoute, lift]
   | succ f ih =>
     intro src dst links lat hpre
-    unfold globalRoute specRoute
+    unfold globalRouteV specRoute
     -- the part shared by both cases: what happens once the bypass search result is known
     have viaCase : ∀ (ca : Zn) (key : Np × Np) (b : Bypass), bypassFind P ca src dst = .via key b →
         (let first : Except Err (List Lk × Int) :=
             if src ≠ key.1 then
               match b.gwSrc with
               | none => .error .bypassNoGw
-              | some g => globalRoute P f src g links lat
+              | some g => globalRouteV fx P f src g links lat
             else .ok (links, lat)
          match first with
          | .error e => .error e
@@ -408,7 +409,7 @@ theorem globalRoute_spec (P : Plat) (hn : ∀ np, (allEnglobing P np).Nodup) (H 
            if dst ≠ key.2 then
              match b.gwDst with
              | none => .error .bypassNoGw
-             | some g => globalRoute P f g dst l2 t2
+             | some g => globalRouteV fx P f g dst l2 t2
            else .ok (l2, t2)) =
         lift P lat (links ++ ·)
           (let first : Except Err (List Seg) :=
@@ -436,7 +437,7 @@ theorem globalRoute_spec (P : Plat) (hn : ∀ np, (allEnglobing P np).Nodup) (H 
            if dst ≠ key.2 then
              match b.gwDst with
              | none => (.error .bypassNoGw : Except Err (List Lk × Int))
-             | some g => globalRoute P f g dst l2 t2
+             | some g => globalRouteV fx P f g dst l2 t2
            else .ok (l2, t2)) =
           lift P lat (links ++ ·)
             (if dst ≠ key.2 then
@@ -457,7 +458,7 @@ theorem globalRoute_spec (P : Plat) (hn : ∀ np, (allEnglobing P np).Nodup) (H 
           | none => simp [lift]
           | some g =>
             simp only []
-            rw [ih g dst _ _ (Or.inr (H ca src dst key b g hb hg))]
+            rw [ih g dst _ _ (H.elim Or.inl (fun H => Or.inr (Or.inr (H ca src dst key b g hb hg))))]
             cases specRoute P f g dst with
             | error e => simp [lift]
             | ok s2 =>
@@ -496,7 +497,8 @@ theorem globalRoute_spec (P : Plat) (hn : ∀ np, (allEnglobing P np).Nodup) (H 
         | none => simp [lift]
         | some r =>
           simp only [lift, flatLinks_single, Seg.links, segsLat_loc]
-          rcases hpre with hl | hp
+          rcases hpre with hf | hl | hp
+          · simp [hf]
           · subst hl; simp
           · simp [hp]
     · -- different zones
@@ -517,5 +519,11 @@ theorem globalRoute_spec (P : Plat) (hn : ∀ np, (allEnglobing P np).Nodup) (H 
             (fun z rest h => specAnc_src_ne P src dst ca z rest dp (hn src) (h ▸ hsa))
             (fun z rest h => specAnc_dst_ne P src dst ca z rest sp (hn dst) (h ▸ hsa))
           exact hc
+
+/-- the code as it is now: no hypothesis on bypass routes, no side condition on the accumulated prefix -/
+theorem globalRoute_spec (P : Plat) (hn : ∀ np, (allEnglobing P np).Nodup)
+    (f : Nat) (src dst : Np) (links : List Lk) (lat : Int) :
+    globalRoute P f src dst links lat = lift P lat (links ++ ·) (specRoute P f src dst) :=
+  globalRouteV_spec true P hn (Or.inl rfl) f src dst links lat (Or.inl rfl)
 
 end SgVerif.C24
